@@ -27,6 +27,7 @@ type variant struct {
 	Expect string   `json:"expect"` // "fire" | "silent"
 	Rule   string   `json:"rule,omitempty"`
 	Why    string   `json:"why"`
+	Patch  string   `json:"patch,omitempty"` // unified diff (path relative to /verif) applied in memory instead of Old/New
 }
 
 type childSpec struct {
@@ -44,7 +45,7 @@ type childResult struct {
 }
 
 func variantsFor(prop string) []variant {
-	var out []variant
+	out := seededVariants(prop)
 	for _, v := range allVariants {
 		for _, p := range v.Props {
 			if p == prop {
@@ -80,14 +81,25 @@ func runVariantChild(spec string) int {
 	}
 	repoRoot, verifRoot = cs.Repo, cs.Verif
 	res := childResult{}
-	path, content, ok := applyVariant(cs.Variant)
-	if !ok {
-		out, _ := json.Marshal(res)
-		fmt.Println(string(out))
-		return 0
+	var overlay map[string][]byte
+	if cs.Variant.Patch != "" {
+		var ok bool
+		overlay, ok = applyPatchVariant(cs.Variant)
+		if !ok {
+			out, _ := json.Marshal(res)
+			fmt.Println(string(out))
+			return 0
+		}
+	} else {
+		path, content, ok := applyVariant(cs.Variant)
+		if !ok {
+			out, _ := json.Marshal(res)
+			fmt.Println(string(out))
+			return 0
+		}
+		overlay = map[string][]byte{path: content}
 	}
 	res.Applicable = true
-	overlay := map[string][]byte{path: content}
 	rules := rulesFor(cs.Prop)
 	wantMain, wantAd := needs(rules)
 	var P *Program
@@ -157,7 +169,14 @@ func runSelfTests(prop string, rules []*Rule) map[string]interface{} {
 		}
 		return r, nil
 	}
-	base, err := run(variant{ID: "baseline", File: vs[0].File, Old: "package ", New: "package "})
+	baseFile := "api/api.go"
+	for _, v := range vs {
+		if v.File != "" {
+			baseFile = v.File
+			break
+		}
+	}
+	base, err := run(variant{ID: "baseline", File: baseFile, Old: "package ", New: "package "})
 	baseSet := map[string]bool{}
 	if err == nil {
 		// "package " occurs once at least; if not exactly once the baseline is inapplicable: fall back to empty set
@@ -198,7 +217,12 @@ func runSelfTests(prop string, rules []*Rule) map[string]interface{} {
 					}
 				}
 				sort.Strings(o.NewViol)
-				if v.Expect == "fire" {
+				if v.Expect == "known-miss" {
+					o.Result = "known-miss"
+					if len(o.NewViol) > 0 {
+						o.Result = "detected"
+					}
+				} else if v.Expect == "fire" {
 					o.Result = "missed"
 					for _, k := range o.NewViol {
 						if v.Rule == "" || strings.HasPrefix(k, v.Rule+"|") {
@@ -217,9 +241,11 @@ func runSelfTests(prop string, rules []*Rule) map[string]interface{} {
 		}(i, v)
 	}
 	wg.Wait()
-	nb, db, ns, ss, inap, errs := 0, 0, 0, 0, 0, 0
+	nb, db, ns, ss, inap, errs, km := 0, 0, 0, 0, 0, 0, 0
 	for _, o := range outs {
 		switch {
+		case o.Expect == "known-miss":
+			km++
 		case o.Result == "inapplicable":
 			inap++
 		case strings.HasPrefix(o.Result, "error"):
@@ -239,12 +265,13 @@ func runSelfTests(prop string, rules []*Rule) map[string]interface{} {
 	summary["variants"] = len(vs)
 	summary["breaking"] = fmt.Sprintf("%d/%d detected", db, nb)
 	summary["benign"] = fmt.Sprintf("%d/%d silent", ss, ns)
+	summary["known_misses"] = km
 	summary["inapplicable"] = inap
 	summary["errors"] = errs
 	summary["outcomes"] = outs
-	fmt.Printf("selftest %s: breaking %d/%d detected, benign %d/%d silent, inapplicable %d, errors %d\n", prop, db, nb, ss, ns, inap, errs)
+	fmt.Printf("selftest %s: breaking %d/%d detected, benign %d/%d silent, documented misses %d, inapplicable %d, errors %d\n", prop, db, nb, ss, ns, km, inap, errs)
 	for _, o := range outs {
-		if o.Result == "missed" || o.Result == "false-alarm" || strings.HasPrefix(o.Result, "error") || o.Result == "inapplicable" {
+		if o.Result == "missed" || o.Result == "known-miss" || o.Result == "false-alarm" || strings.HasPrefix(o.Result, "error") || o.Result == "inapplicable" {
 			fmt.Printf("  selftest %-12s %s (%s) %v\n", o.Result, o.ID, o.Why, o.NewViol)
 		}
 	}
